@@ -26,6 +26,15 @@ def t_value(tid, steps=1):
     return ("value", tid)
 
 
+def t_leak(tid):
+    """a task after which its worker's memory is far above its reference measurement: the worker leaves through the memory-leak
+    protection (announces its pid, exits cleanly) unless this was its very first task"""
+    _log(tid)
+    S.k().park("task.run")
+    S.SIM_MEM[S.sim_getpid()] = S.SIM_MEM.get(S.sim_getpid(), 0) + 1000
+    return ("value", tid)
+
+
 class TaskError(Exception):
     pass
 
@@ -141,6 +150,8 @@ def submit_kind(ex, kind, tid):
         return ex.submit(t_value, tid)
     if kind == "long":
         return ex.submit(t_value, tid, 3)
+    if kind == "leak":
+        return ex.submit(t_leak, tid)
     if kind == "raise":
         return ex.submit(t_raise, tid)
     if kind == "raise_json":
